@@ -121,14 +121,19 @@ def bounded(params):
     pairs = pairs[: (150 if tier == "quick" else 3000)]
     thr_by = {"IOU": [0.3, 0.5], "DSC": [0.5, 0.7], "ASSD": [0.5, 1.0, 2.0]}
     failures, evals, nontriv = [], 0, 0
+    shared = {}  # one matcher object per configuration, REUSED for every pair (as an evaluator does across subjects): no state may carry over
     for a, b in pairs:
         pa, ra = np.array(a, np.uint8), np.array(b, np.uint8)
         for metric in ("IOU", "DSC", "ASSD"):
             for thr in thr_by[metric]:
                 evals += 1
                 try:
-                    lm = dict(MaximizeMergeMatching(Metric[metric], thr)._match_instances(UnmatchedInstancePair(pa.copy(), ra.copy())).labelmap)
+                    mt_ = shared.setdefault((metric, thr), MaximizeMergeMatching(Metric[metric], thr))
+                    lm = dict(mt_._match_instances(UnmatchedInstancePair(pa.copy(), ra.copy())).labelmap)
                     bad = check_merge_result(metric, thr, pa, ra, lm)
+                    lm_fresh = dict(MaximizeMergeMatching(Metric[metric], thr)._match_instances(UnmatchedInstancePair(pa.copy(), ra.copy())).labelmap)
+                    if lm != lm_fresh:
+                        bad.append(f"a reused matcher object gives {lm}, a fresh one {lm_fresh}: the result depends on earlier calls")
                     if len(set(lm.values())) < len(lm):
                         nontriv += 1
                 except Exception as e:
